@@ -2,6 +2,7 @@ pub mod c09;
 pub mod c10;
 pub mod c11;
 pub mod c12;
+pub mod c13;
 pub mod lattice;
 pub mod paths;
 pub mod plan;
@@ -52,6 +53,14 @@ pub fn run_property(id: &str, opts: &Opts) -> i32 {
             ],
             Value::Null,
         ),
+        "C13" => (
+            vec![run_part::<c13::C13>(opts)],
+            &[
+                "component operations themselves are trusted here (they are the subject of C09-C12); this check decides only the composition law and the dispatch",
+                "a case in which a component operation panics is discarded and counted (panicked_cases)",
+            ],
+            Value::Null,
+        ),
         "C09" => (
             vec![run_part::<c09::C09>(opts)],
             &[
@@ -86,6 +95,7 @@ pub fn replay(opts: &Opts, doc: &Value) -> i32 {
     try_part!(c10::C10);
     try_part!(c11::C11);
     try_part!(c12::C12);
+    try_part!(c13::C13);
     match res {
         None => {
             out("replay: no part accepts this file");
